@@ -28,11 +28,17 @@
 (*              without merkle root / cross-chain flag is accepted         *)
 (*   AddrNegCountPanic  addr: a count >= 2^63 skips the loop and then      *)
 (*              slices the nil list to 64 entries -> run-time panic        *)
+(*   OfflineSigSkipped  offline: Deserialization does not read the         *)
+(*              ProposerSig that Serialization writes, so no written       *)
+(*              OfflineWitnessMsg is ever accepted                         *)
+(* DecodePayload / ReadMessage use the constants (TRUE = code as found);   *)
+(* DesignPayload / the dres field give the verdict with both switched off. *)
 (***************************************************************************)
 EXTENDS Integers, Sequences, FiniteSets, TLC
 
 CONSTANTS AddrNegCountPanic,   \* TRUE = code as found
-          Level                \* 1 quick, 2 thorough (more replacement bytes / bigger lists)
+          OfflineSigSkipped,   \* TRUE = code as found
+          Level                \* 0 base frames and counts only, 1 quick, 2 thorough (more replacement bytes)
 
 VARIABLES phase, act
 vars == <<phase, act>>
@@ -115,10 +121,10 @@ DecVersion(bs) ==
          ELSE Ok(Take(bs, 76) \o WrVarBytes(SubSeq(bs, s.lo + 1, s.hi)))
 
 \* Addr: u64 count, 44-byte entries
-DecAddr(bs) ==
+DecAddr(negPanic, bs) ==
     IF Len(bs) < 8 THEN Err
     ELSE LET count == Num64(bs, 0) avail == (Len(bs) - 8) \div 44 IN
-         IF count = NEG THEN (IF AddrNegCountPanic THEN Panic ELSE Err)    \* loop skipped, nil[:64]
+         IF count = NEG THEN (IF negPanic THEN Panic ELSE Err)    \* loop skipped, nil[:64]
          ELSE IF count > avail THEN Err                                     \* some field of entry avail+1 hits the end
          ELSE IF count > MAXCLAMP THEN Ok(U64(MAXCLAMP) \o SubSeq(bs, 9, 8 + 44 * MAXCLAMP))    \* clamp
          ELSE Ok(Take(bs, 8 + 44 * count))
@@ -219,7 +225,7 @@ Cmds == {"ping", "pong", "verack", "version", "addr", "getaddr", "getheaders", "
          "consensus", "notfound", "getblocks", "findnode", "findnodeack", "updatekadid", "getmembers", "members", "offline",
          "mystery"}
 \* makeEmptyMessage + Deserialization
-DecodePayload(cmd, bs) ==
+DecodePayloadSw(negPanic, sigSkipped, cmd, bs) ==
     CASE cmd \in {"ping", "pong"} -> Fixed(bs, 8)
       [] cmd \in {"getheaders", "getblocks"} -> Fixed(bs, 65)
       [] cmd = "getdata" -> Fixed(bs, 33)
@@ -227,7 +233,7 @@ DecodePayload(cmd, bs) ==
       [] cmd = "findnode" -> Fixed(bs, 20)
       [] cmd = "verack" -> DecVerack(bs)
       [] cmd = "version" -> DecVersion(bs)
-      [] cmd = "addr" -> DecAddr(bs)
+      [] cmd = "addr" -> DecAddr(negPanic, bs)
       [] cmd = "getaddr" -> Ok(<<>>)
       [] cmd = "inv" -> DecInv(bs)
       [] cmd = "findnodeack" -> DecFindNodeResp(bs)
@@ -237,9 +243,12 @@ DecodePayload(cmd, bs) ==
       [] cmd = "tx" -> DecTx(bs)
       [] cmd = "consensus" -> DecConsensus(bs)
       [] cmd = "getmembers" -> DecMemReq(bs)
-      [] cmd = "offline" -> DecWhole(bs, TOK_OFFLINE)
+      [] cmd = "offline" -> IF sigSkipped /\ Len(bs) >= 1 /\ bs[1] = TOK_OFFLINE THEN Err ELSE DecWhole(bs, TOK_OFFLINE)
       [] cmd = "updatekadid" -> DecWhole(bs, TOK_KADID)
       [] OTHER -> Ok(bs)                                   \* UnknownMessage keeps the payload
+
+DecodePayload(cmd, bs) == DecodePayloadSw(AddrNegCountPanic, OfflineSigSkipped, cmd, bs)
+DesignPayload(cmd, bs) == DecodePayloadSw(FALSE, FALSE, cmd, bs)
 
 (********************************* frames ***********************************)
 \* frame: [hdr   : number of header bytes on the wire (24 = complete),
@@ -248,15 +257,17 @@ DecodePayload(cmd, bs) ==
 \*         cks   : "good" | "flip"  (checksum of the bytes ReadMessage will read / one bit flipped)]
 \* result: r in {"eof", "magic", "toolong", "checksum"} or the decoder's answer; req = payload bytes requested
 \* from the reader after the header (never more than MAX_PAYLOAD_LEN)
-ReadMessage(f) ==
+ReadMessageWith(Dec(_, _), f) ==
     IF f.hdr < 24 THEN [r |-> "eof", out |-> <<>>, req |-> "none"]
     ELSE IF f.magic # "good" THEN [r |-> "magic", out |-> <<>>, req |-> "none"]
     ELSE IF f.lenf \in {"maxplus1", "huge"} THEN [r |-> "toolong", out |-> <<>>, req |-> "none"]
     ELSE IF f.lenf \in {"plus1", "max"} THEN [r |-> "eof", out |-> <<>>, req |-> f.lenf]
     ELSE IF f.cks # "good" THEN [r |-> "checksum", out |-> <<>>, req |-> f.lenf]
     ELSE LET body == IF f.lenf = "minus1" THEN Take(f.payload, Len(f.payload) - 1) ELSE f.payload
-             d == DecodePayload(f.cmd, body) IN
+             d == Dec(f.cmd, body) IN
          [r |-> d.r, out |-> d.out, req |-> f.lenf]
+ReadMessage(f) == ReadMessageWith(DecodePayload, f)
+ReadMessageDesign(f) == ReadMessageWith(DesignPayload, f)
 
 Frame(cmd, payload) == [hdr |-> 24, magic |-> "good", cmd |-> cmd, payload |-> payload, lenf |-> "exact", cks |-> "good"]
 
@@ -309,13 +320,14 @@ Cuts(bs) == {i \in 0..(Len(bs) - 1) : Len(bs) <= 120 \/ i <= 60 \/ i > Len(bs) -
 
 Do(kind, f) == /\ phase' = phase
                /\ LET res == ReadMessage(f) IN
-                  act' = [name |-> "Read", kind |-> kind, frame |-> f, res |-> res.r, out |-> res.out, req |-> res.req]
+                  act' = [name |-> "Read", kind |-> kind, frame |-> f, res |-> res.r, out |-> res.out, req |-> res.req,
+                          dres |-> ReadMessageDesign(f).r]
 
 Init == phase = "run" /\ act = [name |-> "Init"]
 Next == \E cmd \in Cmds : \E b \in Bases(cmd) :
            \/ Do("base", Frame(cmd, b))
-           \/ \E i \in Cuts(b) : Do("trunc", Frame(cmd, Take(b, i)))
-           \/ \E i \in Positions(b) : \E x \in ReplBytes \cup {(b[i] + 1) % 256} : x # b[i] /\ Do("byte", Frame(cmd, SetAt(b, i, x)))
+           \/ Level >= 1 /\ \E i \in Cuts(b) : Do("trunc", Frame(cmd, Take(b, i)))
+           \/ Level >= 1 /\ \E i \in Positions(b) : \E x \in ReplBytes \cup {(b[i] + 1) % 256} : x # b[i] /\ Do("byte", Frame(cmd, SetAt(b, i, x)))
            \/ \E i \in Positions(b) : i + 3 <= Len(b) /\ Do("count", Frame(cmd, Win(b, i, 4)))
            \/ \E i \in Positions(b) : i + 7 <= Len(b) /\ (i = 1 \/ Level >= 2) /\ Do("count", Frame(cmd, Win(b, i, 8)))
            \/ \E x \in {0, 255} : Do("trail", Frame(cmd, b \o <<x>>))
@@ -339,6 +351,13 @@ HeaderChecksOK == [][act'.name = "Read" =>
                                                                    /\ act'.frame.lenf \in {"exact", "minus1"})]_vars
 \* C24: decoding never panics (fails for the code as found: AddrNegCountPanic)
 NoPanic == [][act'.name = "Read" => act'.res # "panic"]_vars
+\* C24: every message type has a written form that is accepted and reproduced (fails for the code as
+\* found: OfflineSigSkipped)
+EveryTypeRoundTrips == \A cmd \in Cmds : \E b \in Bases(cmd) : DecodePayload(cmd, b) = Ok(b)
+\* the deviations only turn an error into a panic / an accepted frame into an error
+DeviationOK == [][act'.name = "Read" /\ act'.res # act'.dres =>
+                     \/ act'.res = "panic" /\ act'.dres = "err" /\ act'.frame.cmd = "addr"
+                     \/ act'.res = "err" /\ act'.dres = "ok" /\ act'.frame.cmd = "offline"]_vars
 \* C24 round trip: a frame written by WriteMessage (a base payload that is its own re-serialization)
 \* is accepted and reproduced
 Canonical(cmd, b) == DecodePayload(cmd, b).r = "ok" /\ DecodePayload(cmd, b).out = b
